@@ -81,3 +81,296 @@ Example c01_responses_shape_nonvacuous :
      {| r_id := null_bytes; r_body := BErr InvalidRequest s_empty_method |};
      {| r_id := [51%N]; r_body := BErr MethodNotFound s_not_found |}].
 Proof. reflexivity. Qed.
+
+(** * Which windows emit handler entries and messages *)
+Definition is_ret (o : obs) : Prop := match o with ORet _ _ => True | _ => False end.
+
+Lemma complete_cb_obs i r s : Forall is_ret (snd (complete_cb i r s)).
+Proof.
+  unfold complete_cb. destruct (nth_error (cbs s) i); cbn; [|constructor].
+  destruct (cb_ret c); repeat constructor.
+Qed.
+
+Lemma filter_batch_obs ms : forall s keep acc s' keep' os,
+  filter_batch ms s keep acc = (s', keep', os) -> Forall is_ret acc -> Forall is_ret os.
+Proof.
+  induction ms as [|m r IH]; cbn; intros s keep acc s' keep' os H Fa.
+  - injection H as _ _ <-. auto.
+  - destruct (is_req_or_notif m); [eapply IH; eauto|].
+    destruct (assoc (fix_id (j_id m)) (calls s)) as [i|].
+    + pose proof (complete_cb_obs i (match j_error m with
+         | Some e => CErr (we_code e) (we_msg e) | None => CRes (j_result m) end) s) as K.
+      destruct (complete_cb i _ s) as [s1 os1]. cbn in K.
+      eapply IH; eauto. apply Forall_app; auto.
+    + destruct (c_push s && is_nil (j_method m) && has_reply_fields m); eapply IH; eauto.
+Qed.
+
+Definition null_err (c : Z) (m : bytes) : rsp := {| r_id := null_bytes; r_body := BErr c m |}.
+
+Definition obs_origin (s : state) (l : label) (s1 : state) (o : obs) : Prop :=
+  match o with
+  | OStart p cn =>
+      exists k t t', nth_error (tasks s) k = Some t /\ nth_error (tasks s1) k = Some t' /\
+        t_params t = p /\ t_cancelled t = cn /\ rank (t_st t) < 2 /\ t_st t' = TRunning /\ t_builtin t = false /\
+        (l = LRelAcquire k \/ exists k0, l = LRelHandled k0 /\ k0 <> k)
+  | OSend ok b rs =>
+      (exists u un, l = LRelDeliver u /\ nth_error (units s) u = Some un /\ u_st un = UAtDeliver /\
+                    u_chok un = true /\ rs = responses (unit_tasks s u) /\ b = u_batch un) \/
+      (l = LRelRead /\ running s = true /\ b = false /\
+       exists i, (rd s = RHold (FMsg i) \/ rd s = RHold (FMsgEOF i)) /\
+         ((i = InBad /\ rs = [null_err ParseError s_invalid_value]) \/
+          (exists bb, i = InMsgs bb [] /\ rs = [null_err InvalidRequest s_empty_batch])))
+  | _ => True
+  end.
+
+Lemma read_cs_obs f i s s' os o : f = FMsg i \/ f = FMsgEOF i -> running s = true -> rd s = RHold f ->
+  read_cs f s = (s', os) -> In o os -> obs_origin s LRelRead s' o.
+Proof.
+  intros Hf R Rd H Ho.
+  assert (H' : (match i with
+           | InBad => let '(s', os) := push_error s ParseError s_invalid_value in (s' <| rd := RIdle |>, os)
+           | InMsgs _ [] => let '(s', os) := push_error s InvalidRequest s_empty_batch in (s' <| rd := RIdle |>, os)
+           | InMsgs b ms =>
+               let '(s1, keep, os) := filter_batch ms s [] [] in
+               match keep with
+               | [] => (s1 <| rd := RIdle |>, os)
+               | _ => let s2 := s1 <| inq ::= fun q => q ++ [(b, keep)] |> <| rd := RIdle |> in
+                      if work_closed s2 && (length (inq s2) =? 1)
+                      then (s2 <| crash := Some CrSendOnClosedWork |>, os ++ [OCrash CrSendOnClosedWork])
+                      else (s2, os)
+               end
+           end) = (s', os)).
+  { destruct Hf as [-> | ->]; unfold read_cs in H; rewrite R in H; exact H. }
+  clear H.
+  assert (Hrd : rd s = RHold (FMsg i) \/ rd s = RHold (FMsgEOF i)) by (destruct Hf as [-> | ->]; auto).
+  destruct i as [|b ms].
+  - cbn in H'. injection H' as <- <-. destruct Ho as [<-|[]]. cbn. right. repeat split; auto.
+    exists InBad. split; auto.
+  - destruct ms as [|m ms].
+    + cbn in H'. injection H' as <- <-. destruct Ho as [<-|[]]. cbn. right. repeat split; auto.
+      exists (InMsgs b []). split; auto. right. exists b. auto.
+    + destruct (filter_batch (m :: ms) s [] []) as [[s1 keep] os1] eqn:F.
+      apply filter_batch_obs in F; [|constructor].
+      assert (Ir : forall o, In o os1 -> obs_origin s LRelRead s' o).
+      { intros o' Ho'. rewrite Forall_forall in F. specialize (F _ Ho'). destruct o'; cbn in F; tauto. }
+      destruct keep as [|k0 kr].
+      * injection H' as <- <-. auto.
+      * cbv zeta in H'.
+        match type of H' with (if ?c then _ else _) = _ => destruct c end; injection H' as <- <-; auto.
+        apply in_app_or in Ho as [Ho|[<-|[]]]; [|exact Logic.I].
+        rewrite Forall_forall in F. specialize (F _ Ho). destruct o; cbn in F; tauto.
+Qed.
+
+Lemma raw_obs s l s1 os1 o : inv s -> step_raw s l = Some (s1, os1) -> In o os1 -> obs_origin s l s1 o.
+Proof.
+  intros I H Ho. destruct l; unfold step_raw in H.
+  - destruct (negb (running s) && (wg s =? 0)); [|discriminate]. injection H as <- <-. destruct Ho.
+  - injection H as <- <-. destruct Ho.
+  - injection H as <- <-. destruct Ho.
+  - destruct (find_idx _ 0 (tasks s)) as [k|]; [|discriminate].
+    destruct (nth_error (tasks s) k) as [t|]; [|discriminate]. injection H as <- <-.
+    destruct Ho as [<-|[]]. exact Logic.I.
+  - injection H as <- <-. destruct Ho.
+  - injection H as <- <-. destruct Ho.
+  - destruct (c_push s); injection H as <- <-; [destruct Ho|]. destruct Ho as [<-|[]]. exact Logic.I.
+  - injection H as <- <-. destruct Ho.
+  - destruct (find_idx _ 0 (cbs s)); injection H as <- <-; destruct Ho.
+  - (* LRelRead *)
+    destruct (rd s) as [| |f|] eqn:Rd; try discriminate. injection H as H.
+    destruct f as [i|i|c].
+    3:{ cbn in H. destruct (stop_locked c s) as [s0 os0] eqn:St. injection H as <- <-.
+        apply stop_locked_spec in St as [(_ & _ & ->)|(_ & -> & _)]; [destruct Ho|].
+        destruct Ho as [<-|[]]. exact Logic.I. }
+    all: destruct (running s) eqn:Rn;
+      [ refine (read_cs_obs _ i _ _ _ _ _ Rn Rd H Ho); auto
+      | cbn in H; rewrite Rn in H; cbn in H; injection H as <- <-; destruct Ho ].
+  - destruct (dp s); try discriminate. injection H as <- <-. destruct Ho.
+  - destruct (dp s); try discriminate. injection H as <- <-. destruct Ho.
+  - (* LRelAcquire *)
+    destruct (nth_error (tasks s) k) as [t|] eqn:E; [|discriminate].
+    destruct (t_st t) eqn:St; try discriminate.
+    destruct (negb (unit_running s t)); [discriminate|].
+    destruct (t_cancelled t) eqn:Cn; [injection H as <- <-; destruct Ho|].
+    destruct (sem_free s); [injection H as <- <-; destruct Ho|].
+    destruct (sem_wait s); [|injection H as <- <-; destruct Ho].
+    destruct (t_builtin t) eqn:B; injection H as <- <-; [destruct Ho|].
+    destruct Ho as [<-|[]]. cbn. exists k, t, (t <| t_st := TRunning |>). rewrite St.
+    repeat split; auto. erewrite nth_error_upd_nth_eq; eauto.
+  - (* LRelHandled *)
+    destruct (nth_error (tasks s) k) as [tk|] eqn:E; [|discriminate].
+    destruct (t_st tk) eqn:St; try discriminate.
+    set (s0 := set_task k (fun t => t <| t_st := TDone (body_of_outcome t o0) |>) s <| sem_free ::= S |>) in *.
+    assert (W0 : wait_ok s0).
+    { unfold wait_ok, s0; cbn. apply wait_ok_upd; [apply I|]. eapply wait_not_in; eauto; [apply I|congruence]. }
+    pose proof (grant_spec (S (length (sem_wait s0))) s0 [] W0) as G.
+    destruct (grant (S (length (sem_wait s0))) s0 []) as [s2 os2]. cbn [fst snd] in G.
+    destruct (gp_obs _ _ _ _ G) as (extra & Eo & Ex). cbn in Eo. subst os2.
+    assert (Hin : In o extra \/ exists ck, o = OCrash ck).
+    { destruct (is_note tk); [destruct (nbar s2)|]; injection H as <- <-; auto.
+      apply in_app_or in Ho as [Ho|[<-|[]]]; eauto. }
+    destruct Hin as [Hin|(ck & ->)]; [|exact Logic.I].
+    destruct (Ex _ Hin) as (j & t & t' & -> & Ej & Sj & Bj & Ej' & Sj').
+    assert (Nj : k <> j).
+    { intros <-. unfold s0 in Ej. cbn in Ej. erewrite nth_error_upd_nth_eq in Ej; eauto.
+      injection Ej as <-. cbn in Sj. discriminate. }
+    assert (Ej0 : nth_error (tasks s) j = Some t).
+    { unfold s0 in Ej. cbn in Ej. rewrite nth_error_upd_nth_neq in Ej; auto. }
+    assert (Ej1 : nth_error (tasks s1) j = Some t').
+    { destruct (is_note tk); [destruct (nbar s2)|]; injection H as <- <-; exact Ej'. }
+    cbn. exists j, t, t'. rewrite Sj. repeat split; auto. right. exists k. auto.
+  - (* LRelDeliver *)
+    destruct (nth_error (units s) u) as [un|] eqn:E; [|discriminate].
+    destruct (u_st un) eqn:Su; try discriminate.
+    destruct (u_chok un) eqn:Ck; cbn in H; injection H as <- <-; destruct Ho as [<-|[]]; [|exact Logic.I].
+    cbn. left. exists u, un. repeat split; auto.
+  - destruct (find_op n (ops s)) as [[n0|n0 id|n0 w m p]|]; try discriminate.
+    destruct (stop_locked SCStop (s <| ops ::= del_op n |>)) as [s0 os0] eqn:St. injection H as <- <-.
+    apply stop_locked_spec in St as [(_ & _ & ->)|(_ & -> & _)]; cbn in Ho.
+    + destruct Ho as [<-|[]]. exact Logic.I.
+    + destruct Ho as [<-|[<-|[]]]; exact Logic.I.
+  - destruct (find_op n (ops s)) as [[n0|n0 id|n0 w m p]|]; try discriminate.
+    injection H as <- <-. destruct Ho as [<-|[]]. exact Logic.I.
+  - destruct (find_op n (ops s)) as [[n0|n0 id|n0 w m p]|]; try discriminate.
+    cbn in H. destruct (running s); cbn in H; [|injection H as <- <-; destruct Ho as [<-|[]]; exact Logic.I].
+    destruct w; [|injection H as <- <-; destruct Ho as [<-|[<-|[]]]; exact Logic.I].
+    destruct (send_fail s); [injection H as <- <-; destruct Ho as [<-|[<-|[]]]; exact Logic.I|].
+    destruct (find _ (ended s)) as [[? ?]|]; injection H as <- <-; destruct Ho as [<-|[]]; exact Logic.I.
+  - destruct (nth_error (cbs s) c) as [cb0|]; [|discriminate].
+    destruct (cb_watch cb0); try discriminate.
+    assert (Q : forall (x : state * list obs), Forall is_ret (snd x) -> Some x = Some (s1, os1) -> obs_origin s (LRelCbWatch c) s1 o).
+    { intros [x1 x2] Fx [= <- <-]. cbn in Fx. rewrite Forall_forall in Fx. specialize (Fx _ Ho).
+      destruct o; cbn in Fx; tauto. }
+    cbv zeta in H.
+    destruct (assoc (cb_id cb0) _) as [j|]; [|eapply Q; [|exact H]; constructor].
+    destruct (cb_slot cb0); [eapply Q; [|exact H]; constructor|].
+    destruct (j =? c); [|eapply Q; [|exact H]; constructor].
+    destruct (match cb_ctx cb0 with Some WDeadline => _ | _ => _ end) as [code msg].
+    eapply Q; [|exact H]. apply complete_cb_obs.
+Qed.
+
+
+(* an observation of a window that is not a WaitStatus return or a crash report comes from its critical section *)
+Lemma step_obs_raw s l s' os o : step s l = Some (s', os) -> In o os -> ~ settle_obs o ->
+  crash s = None /\ exists s1 os1, step_raw s l = Some (s1, os1) /\ In o os1 /\ keeps_tasks s1 s'.
+Proof.
+  intros H Ho Ns. apply step_decompose in H as (Cr & s1 & os1 & Hr & [(_ & -> & ->)|(_ & Hs)]).
+  - split; auto. exists s1, os1. repeat split; auto. intros k t E; auto.
+  - split; auto. exists s1, os1. split; auto.
+    pose proof (settle_keeps _ _ _ _ _ Hs) as K. apply settle_obs_app in Hs as (extra & -> & Fa).
+    split; auto. apply in_app_or in Ho as [Ho|Ho]; auto.
+    rewrite Forall_forall in Fa. destruct (Ns (Fa _ Ho)).
+Qed.
+
+(** * C01.3: a message is sent once, by deliver, when all its handlers have returned *)
+Theorem c01_send_origin c s l s' os ok b rs : reach c s -> step s l = Some (s', os) -> In (OSend ok b rs) os ->
+  (exists u un, l = LRelDeliver u /\ nth_error (units s) u = Some un /\ u_st un = UAtDeliver /\
+                rs = responses (unit_tasks s u) /\ b = u_batch un /\ all_finished s u = true) \/
+  (l = LRelRead /\ b = false /\
+   (rs = [null_err ParseError s_invalid_value] \/ rs = [null_err InvalidRequest s_empty_batch])).
+Proof.
+  intros R H Ho. apply reach_reachf in R. pose proof (reachf_inv _ _ R) as I.
+  destruct (step_obs_raw _ _ _ _ _ H Ho) as (Cr & s1 & os1 & Hr & Ho1 & _); [cbn; tauto|].
+  pose proof (raw_obs _ _ _ _ _ I Hr Ho1) as O. cbn in O.
+  destruct O as [(u & un & -> & E & Su & _ & -> & ->)|(-> & _ & -> & i & _ & [(_ & ->)|(bb & _ & ->)])].
+  - left. exists u, un. repeat split; auto. apply (i_fin _ I _ _ E). auto.
+  - right. auto.
+  - right. auto.
+Qed.
+
+(* the deliver window sends exactly one message *)
+Theorem c01_deliver_window c s u s' os : reach c s -> step s (LRelDeliver u) = Some (s', os) ->
+  exists un, nth_error (units s) u = Some un /\ u_st un = UAtDeliver /\ all_finished s u = true /\
+    ((u_chok un = true /\ exists ok extra,
+        os = OSend ok (u_batch un) (responses (unit_tasks s u)) :: extra /\ Forall settle_obs extra) \/
+     (u_chok un = false /\ os = [OCrash CrNilChannel])).
+Proof.
+  intros R H. apply reach_reachf in R. pose proof (reachf_inv _ _ R) as I.
+  apply step_decompose in H as (Cr & s1 & os1 & Hr & Hs). unfold step_raw in Hr.
+  destruct (nth_error (units s) u) as [un|] eqn:E; [|discriminate].
+  destruct (u_st un) eqn:Su; try discriminate.
+  exists un. repeat split; auto. { apply (i_fin _ I _ _ E). auto. }
+  destruct (u_chok un); cbn in Hr; injection Hr as <- <-.
+  - left. split; auto. destruct Hs as [(_ & _ & ->)|(_ & Hs)].
+    + eexists _, []. split; [reflexivity|auto].
+    + apply settle_obs_app in Hs as (extra & -> & Fa). eexists _, extra. split; [reflexivity|auto].
+  - right. split; auto. destruct Hs as [(_ & _ & ->)|(Cr1 & _)]; auto. cbn in Cr1. discriminate.
+Qed.
+
+Definition is_deliver (u : nat) (l : label) : bool := match l with LRelDeliver v => v =? u | _ => false end.
+Definition ufin (s : state) (u : nat) : bool :=
+  match nth_error (units s) u with Some un => match u_st un with UFinished => true | _ => false end | None => false end.
+
+Lemma ufin_mono s s' u : units_ext (units s) (units s') -> ufin s u = true -> ufin s' u = true.
+Proof.
+  unfold ufin. intros X H. destruct (nth_error (units s) u) as [un|] eqn:E; [|discriminate].
+  destruct (X _ _ E) as (un' & E' & Le). rewrite E'. destruct Le as [_ _ _ Rk].
+  destruct (u_st un); try discriminate. destruct (u_st un'); cbn in Rk; auto; lia.
+Qed.
+
+Lemma settle_ext c : forall fuel s acc s' os, reachf c s -> settle fuel s acc = (s', os) -> ext s s'.
+Proof.
+  apply (lift_settle c ext ext_refl ext_trans).
+  intros a b os0 Ra H. eapply settle1_ok; eauto. eapply reachf_inv; eauto.
+Qed.
+
+Lemma deliver_finishes c s u s' os : reachf c s -> step s (LRelDeliver u) = Some (s', os) ->
+  crash s' <> None \/ ufin s' u = true.
+Proof.
+  intros R H. apply step_decompose in H as (Cr & s1 & os1 & Hr & Hs).
+  assert (R1 : reachf c s1) by (eapply rf_raw; eauto).
+  unfold step_raw in Hr.
+  destruct (nth_error (units s) u) as [un|] eqn:E; [|discriminate].
+  destruct (u_st un) eqn:Su; try discriminate.
+  destruct (release_ids_spec (unit_tasks s u) s) as [_ _ _ (Eu & _) _ _ _].
+  destruct (u_chok un); cbn in Hr; injection Hr as <- <-.
+  - assert (F1 : ufin (set_unit u (fun x => x <| u_st := UFinished |>) (release_ids (unit_tasks s u) s) <| wg ::= pred |>) u = true).
+    { unfold ufin. cbn. rewrite Eu. erewrite nth_error_upd_nth_eq; eauto. }
+    destruct Hs as [(_ & -> & _)|(_ & Hs)]; [right; exact F1|].
+    right. eapply ufin_mono; [|exact F1]. apply (settle_ext c _ _ _ _ _ R1 Hs).
+  - left. destruct Hs as [(_ & -> & _)|(Cr1 & _)]; [cbn; discriminate|cbn in Cr1; discriminate].
+Qed.
+
+Lemma run_crashed s tr s' oss : crash s <> None -> run s tr = Some (s', oss) -> tr = [].
+Proof.
+  destruct tr as [|l r]; auto. cbn. unfold step. destruct (crash s); [discriminate|congruence].
+Qed.
+
+Lemma deliver_once_from c u : forall tr s s' oss, reachf c s -> run s tr = Some (s', oss) ->
+  countb (is_deliver u) tr <= (if ufin s u then 0 else 1).
+Proof.
+  induction tr as [|l r IH]; intros s s' oss R H; [cbn; destruct (ufin s u); lia|].
+  cbn in H. destruct (step s l) as [[s1 os]|] eqn:St; [|discriminate].
+  destruct (run s1 r) as [[s2 oss2]|] eqn:Rn; [|discriminate].
+  assert (R1 : reachf c s1) by (eapply step_reachf; eauto).
+  specialize (IH _ _ _ R1 Rn). cbn [countb].
+  destruct (is_deliver u l) eqn:D.
+  - destruct l; try discriminate D. cbn in D. apply Nat.eqb_eq in D. subst u0.
+    assert (Nf : ufin s u = false).
+    { unfold step in St. destruct (crash s); [discriminate|]. unfold step_raw in St. unfold ufin.
+      destruct (nth_error (units s) u) as [un|]; auto. destruct (u_st un); auto; discriminate. }
+    rewrite Nf. destruct (deliver_finishes _ _ _ _ _ R St) as [Cr|F].
+    + apply (run_crashed _ _ _ _ Cr) in Rn. subst r. cbn. lia.
+    + rewrite F in IH. lia.
+  - destruct (ufin s u) eqn:F; [|destruct (ufin s1 u); lia].
+    rewrite (ufin_mono s s1 u) in IH; auto. apply (step_ext _ _ _ _ _ R St).
+Qed.
+
+Theorem c01_deliver_once c tr s oss u : run (init_of c) tr = Some (s, oss) -> countb (is_deliver u) tr <= 1.
+Proof.
+  intros H. pose proof (deliver_once_from c u tr _ _ _ (rf_init c) H) as B.
+  destruct (ufin (init_of c) u); lia.
+Qed.
+
+Example c01_deliver_once_nonvacuous :
+  run (init_of ex_cfg) ex_tr_delivered <> None /\ countb (is_deliver 0) ex_tr_delivered = 1 /\
+  obs_of ex_cfg ex_tr_delivered =
+    [[]; []; []; []; []; [OStart [91%N; 93%N] false]; [OGate [91%N; 93%N] false]; [];
+     [OSend true false [{| r_id := [49%N]; r_body := BRes [50%N] |}]]].
+Proof. vm_compute. repeat split; auto. discriminate. Qed.
+
+Example c01_send_origin_nonvacuous :
+  exists s s' os ok b rs, reach ex_cfg s /\ step s (LRelDeliver 0) = Some (s', os) /\ In (OSend ok b rs) os.
+Proof.
+  exists (st_of ex_cfg ex_tr_atdeliver). eexists _, _, _, _, _.
+  split; [apply reach_st_of; vm_compute; discriminate|]. compute. split; [reflexivity|]. left; reflexivity.
+Qed.
